@@ -18,7 +18,9 @@
 package main
 
 import (
+	"bytes"
 	"context"
+	"crypto"
 	"crypto/x509"
 	"fmt"
 	"os"
@@ -137,10 +139,14 @@ const (
 	kRootAndUnrelated
 	kLeaf     // only meaningful for the self-signed single-certificate chain
 	kEmptyDir // the store directory exists but holds no file: it cannot be loaded
+	// look-alikes of the chain's CA certificates (never identical to them):
+	kTwinRoot     // same subject, issuer, serial number and validity as the chain's root - another key
+	kTwinInter    // the same for the intermediate
+	kReissuedRoot // same subject and key as the chain's root - another serial number and validity
 	nKinds
 )
 
-var kindNames = []string{"absent", "root", "intermediate", "unrelated", "root+unrelated", "leaf", "empty-directory"}
+var kindNames = []string{"absent", "root", "intermediate", "unrelated", "root+unrelated", "leaf", "empty-directory", "twin-of-root(same-names-and-serial)", "twin-of-intermediate(same-names-and-serial)", "re-issued-root(same-name-and-key)"}
 
 type caseT struct {
 	Placement []int `json:"placement"` // per store reference: content kind
@@ -161,6 +167,27 @@ type caseT struct {
 	Names  int `json:"names"`
 	Level  int `json:"level"`
 	Plugin int `json:"plugin"`
+	// Cancel: the context given to Verify is 0: never cancelled, 1: already cancelled, 1+k: cancelled by the trust
+	// store at the moment its k-th answer returns (synchronously, no second goroutine).
+	Cancel int `json:"cancel"`
+}
+
+var cancelNames = []string{"never", "before-the-call", "when-store-read-1-returns", "when-store-read-2-returns"}
+
+// cancellingStore cancels the caller's context when its n-th answer returns.
+type cancellingStore struct {
+	inner  truststore.X509TrustStore
+	n      int
+	seen   atomic.Int64
+	cancel context.CancelFunc
+}
+
+func (s *cancellingStore) GetCertificates(ctx context.Context, t truststore.Type, name string) ([]*x509.Certificate, error) {
+	certs, err := s.inner.GetCertificates(ctx, t, name)
+	if int(s.seen.Add(1)) == s.n {
+		s.cancel()
+	}
+	return certs, err
 }
 
 func (c caseT) String() string {
@@ -186,6 +213,9 @@ func (c caseT) String() string {
 	if c.Store == 1 {
 		prior += ", caller-supplied store answering with sub-slices of one array"
 	}
+	if c.Cancel != 0 {
+		prior += ", context cancelled " + cancelNames[c.Cancel]
+	}
 	if c.Level != 0 || c.Plugin != 0 {
 		prior += ", " + levelNames[c.Level] + ", verification plugin: " + pluginNames[c.Plugin]
 	}
@@ -194,16 +224,20 @@ func (c caseT) String() string {
 
 type world struct {
 	chain3, chain1, unrelated *pki.Chain
+	// shape 2: a chain that agrees with chain3 certificate by certificate in subject, issuer, serial number and
+	// validity and has other keys; shape 3: chain3 under a re-issued root (same name and key, other serial number)
+	twin3, reissued3 *pki.Chain
 	desc                      ocispec.Descriptor
 	envs                      map[string][]byte
 	root                      string
 }
 
+func (w *world) chainOf(shape int) *pki.Chain {
+	return []*pki.Chain{w.chain3, w.chain1, w.twin3, w.reissued3}[shape]
+}
+
 func (w *world) certsOf(kind, shape int) []*x509.Certificate {
-	ch := w.chain3
-	if shape == 1 {
-		ch = w.chain1
-	}
+	ch := w.chainOf(shape)
 	switch kind {
 	case kRoot:
 		return []*x509.Certificate{ch.Root().Cert}
@@ -217,12 +251,62 @@ func (w *world) certsOf(kind, shape int) []*x509.Certificate {
 	case kRootAndUnrelated:
 		return []*x509.Certificate{w.unrelated.Root().Cert, ch.Root().Cert}
 	case kLeaf:
-		if shape == 0 {
+		if shape != 1 {
 			return nil
 		}
 		return []*x509.Certificate{ch.Leaf().Cert}
+	case kTwinRoot, kTwinInter: // the twin relation is symmetric
+		var other *pki.Chain
+		switch shape {
+		case 0:
+			other = w.twin3
+		case 2:
+			other = w.chain3
+		default:
+			return nil
+		}
+		if kind == kTwinRoot {
+			return []*x509.Certificate{other.Root().Cert}
+		}
+		return []*x509.Certificate{other.Certs[1].Cert}
+	case kReissuedRoot:
+		switch shape {
+		case 0:
+			return []*x509.Certificate{w.reissued3.Root().Cert}
+		case 3:
+			return []*x509.Certificate{w.chain3.Root().Cert}
+		}
 	}
 	return nil
+}
+
+// lookalikes builds the twin chain and the re-issued root of chain3 and checks that they collide as intended.
+func (w *world) lookalikes(r *hx.Run) {
+	g := w.chain3
+	mk := func(of *pki.Cert, key crypto.Signer, issuer *pki.Cert, sameSerial bool) *pki.Cert {
+		t := pki.Tmpl{Subject: of.Cert.Subject, NotBefore: of.Cert.NotBefore, NotAfter: of.Cert.NotAfter, CA: of.Cert.IsCA, PathLen: -1}
+		if sameSerial {
+			t.Serial = of.Cert.SerialNumber
+		} else {
+			t.NotBefore = t.NotBefore.Add(time.Hour)
+		}
+		return pki.Make(t, key, issuer)
+	}
+	tr := mk(g.Certs[2], pki.Key(pki.EC256, 131), nil, true)
+	ti := mk(g.Certs[1], pki.Key(pki.EC256, 132), tr, true)
+	tl := mk(g.Certs[0], pki.Key(pki.EC256, 133), ti, true)
+	w.twin3 = &pki.Chain{Certs: []*pki.Cert{tl, ti, tr}}
+	rr := mk(g.Certs[2], g.Certs[2].Key, nil, false)
+	w.reissued3 = &pki.Chain{Certs: []*pki.Cert{g.Certs[0], g.Certs[1], rr}}
+	for i := range g.Certs {
+		a, b := g.Certs[i].Cert, w.twin3.Certs[i].Cert
+		if !bytes.Equal(a.RawSubject, b.RawSubject) || !bytes.Equal(a.RawIssuer, b.RawIssuer) || a.SerialNumber.Cmp(b.SerialNumber) != 0 || !a.NotAfter.Equal(b.NotAfter) || bytes.Equal(a.RawSubjectPublicKeyInfo, b.RawSubjectPublicKeyInfo) || a.Equal(b) {
+			r.Infra("look-alike chain: certificate %d does not collide with its original as intended", i)
+		}
+	}
+	if a := g.Root().Cert; !bytes.Equal(a.RawSubject, rr.Cert.RawSubject) || !bytes.Equal(a.RawSubjectPublicKeyInfo, rr.Cert.RawSubjectPublicKeyInfo) || a.SerialNumber.Cmp(rr.Cert.SerialNumber) == 0 || a.Equal(rr.Cert) {
+		r.Infra("re-issued root does not collide with its original as intended")
+	}
 }
 
 // configDir materialises a placement once; directories are read-only afterwards.
@@ -289,6 +373,13 @@ func (w *world) run(r *hx.Run, c caseT) {
 		}
 		inner = sa
 	}
+	ctx, cancel := context.WithCancel(ctx) // shadows the background context for the judged call
+	defer cancel()
+	var cstore *cancellingStore
+	if c.Cancel >= 2 {
+		cstore = &cancellingStore{inner: inner, n: c.Cancel - 1, cancel: cancel}
+		inner = cstore
+	}
 	ls := &mocks.LoggingStore{Inner: inner}
 	var list, others []string
 	inList := map[int]bool{}
@@ -343,6 +434,12 @@ func (w *world) run(r *hx.Run, c caseT) {
 		_, _ = v.Verify(ctx, w.desc, w.envs[fmt.Sprintf("%d/%d/%d", c.Shape, ps, pf)], notation.VerifierVerifyOptions{ArtifactReference: "reg.io/team/app@" + w.desc.Digest.String(), SignatureMediaType: forge.Formats[pf]})
 		ls.Calls = nil // the call log of the judged verification only
 	}
+	if cstore != nil {
+		cstore.seen.Store(0) // count the answers of the judged verification only
+	}
+	if c.Cancel == 1 {
+		cancel()
+	}
 	r.Eval(1)
 	outcome, verr := v.Verify(ctx, w.desc, env, notation.VerifierVerifyOptions{ArtifactReference: "reg.io/team/app@" + w.desc.Digest.String(), SignatureMediaType: forge.Formats[c.Format]})
 	bad := func(key, what string) {
@@ -360,6 +457,12 @@ func (w *world) run(r *hx.Run, c caseT) {
 		}
 		if c.Plugin != plNone {
 			key += ":plugin=" + pluginNames[c.Plugin]
+		}
+		if c.Shape >= 2 || hasLookalike(c.Placement) {
+			key += ":look-alike-certificates"
+		}
+		if c.Cancel != 0 {
+			key += ":context-cancelled=" + cancelNames[c.Cancel]
 		}
 		r.Violation(key, what+" | "+c.String(), c)
 	}
@@ -388,10 +491,7 @@ func (w *world) run(r *hx.Run, c caseT) {
 			L = append(L, i)
 		}
 	}
-	chain := w.chain3
-	if c.Shape == 1 {
-		chain = w.chain1
-	}
+	chain := w.chainOf(c.Shape)
 	allLoad := true
 	anchored := false
 	firstFail := -1
@@ -444,7 +544,13 @@ func (w *world) run(r *hx.Run, c caseT) {
 	if !want && verr == nil && c.Level != 1 {
 		bad("verification-succeeded/"+why, "authenticity is enforced and must fail")
 	}
-	if c.Plugin == plNone {
+	if c.Cancel != 0 {
+		// a verification whose context was cancelled may legitimately stop with an error: only the statement's
+		// implication (above) is judged
+		if want && (!got || verr != nil) {
+			class = "anchored-but-cancelled-verification-stopped"
+		}
+	} else if c.Plugin == plNone {
 		// verdict clauses as before (nothing but the trust stores decides here)
 		if !got && want {
 			bad("authenticity-failed-although-anchored", fmt.Sprintf("authenticity failed: %v", rs[0].Error))
@@ -519,6 +625,10 @@ func (w *world) run(r *hx.Run, c caseT) {
 		}
 	}
 	switch {
+	case c.Cancel != 0:
+		class = "cancelled/" + class
+	case c.Shape >= 2 || hasLookalike(c.Placement):
+		class = "look-alikes/" + class
 	case c.Level != 0 || c.Plugin != 0:
 		class = "options/" + class
 	case c.Names != 0:
@@ -526,8 +636,17 @@ func (w *world) run(r *hx.Run, c caseT) {
 	}
 	r.Outcome(class + ":" + why)
 	if len(L) > 0 {
-		r.Nontrivial(fmt.Sprintf("%v|%v|%d|%d|%d|%d|%d|%d", c.Placement, c.List, c.Scheme, c.Format, c.Shape, c.Names, c.Level, c.Plugin))
+		r.Nontrivial(fmt.Sprintf("%v|%v|%d|%d|%d|%d|%d|%d", c.Placement, c.List, c.Scheme, c.Format, c.Shape, c.Names, c.Level, c.Plugin)+fmt.Sprint("|", c.Cancel))
 	}
+}
+
+func hasLookalike(pl []int) bool {
+	for _, k := range pl {
+		if k == kTwinRoot || k == kTwinInter || k == kReissuedRoot {
+			return true
+		}
+	}
+	return false
 }
 
 // placementsOf: every assignment of a content kind to at most maxStores of the six stores.
@@ -654,6 +773,7 @@ func main() {
 	r := hx.New("C03")
 	r.Rule = "every placement of {root, intermediate, unrelated CA, root+unrelated, leaf} into at most 2 (quick: 1) of the six named stores x every store list of length 1..3 (quick: 1..2) over the six references x scheme x format x chain shape; the other stores are listed by a second statement and a wildcard statement; one real verifier.Verify over the real on-disk trust store per case; non-trivial = cases whose list names at least one store of the required type"
 	r.Rule += "; near-miss store names: each of the hand-labelled name pairs (trailing dot, letter case, extension, leading dot, dash/underscore, dotted suffix, inner dot, leading zero, long common prefix, trailing dash) replaces s1/s2 under every type x placements of {root, unrelated, empty directory} into at most 2 stores x every list of length 1 (thorough: 1..2) x scheme x format (quick: JWS) on the 3-certificate chain; options: every cell of {authenticity enforced, logged (audit), enforced with live revocation} x {no plugin, plugin with trusted-identity success / failure, revocation success, both} other than the plain one x placements into at most 1 (thorough: 2) stores x lists of length 1 x scheme x format x chain shape"
+	r.Rule += "; look-alike certificates: the 3-certificate chain, its twin (same subjects, issuers, serial numbers and validity, other keys) and the chain under a re-issued root (same name and key, other serial number) as the signature's chain x placements of {the chain's root, intermediate, twin of root, twin of intermediate, re-issued root} into at most 1 (thorough: 2) stores x lists of length 1..2 x scheme x format - the oracle compares certificates byte for byte; context: {already cancelled, cancelled by the trust store when its first / second answer returns} x placements of {root, intermediate, unrelated, empty directory} into at most 1 (thorough: 2) stores x lists of length 1..2 x scheme x format on the 3-certificate chain - only 'passes only if' and 'enforced failure rejects' are judged there"
 	r.Assumptions = []string{"trust stores are real directories under a scratch config root read through truststore.NewX509TrustStore (no permission faults: run as root)", "no timestamp path is exercised, so a tsa store must never be loaded",
 		"the scratch file system keeps the two names of a near-miss pair apart (probed per pair; a pair it folds is skipped and recorded)",
 		"verification plugins are scripted in-process plugin.Plugin values behind a scripted manager; they answer every capability they are asked"}
@@ -663,7 +783,8 @@ func main() {
 	w.chain1 = pki.NewChain(pki.ChainOpts{Len: 1, Prefix: "selfsigned", LeafIdx: 4})
 	w.unrelated = pki.NewChain(pki.ChainOpts{Len: 2, Prefix: "unrelated", CAIdx: 5, LeafIdx: 5})
 	w.desc = ocispec.Descriptor{MediaType: "application/vnd.oci.image.manifest.v1+json", Digest: digest.FromString("c03"), Size: 3}
-	for shape, ch := range []*pki.Chain{w.chain3, w.chain1} {
+	w.lookalikes(r)
+	for shape, ch := range []*pki.Chain{w.chain3, w.chain1, w.twin3, w.reissued3} {
 		for s := 0; s < 2; s++ {
 			for f := 0; f < 2; f++ {
 				w.envs[fmt.Sprintf("%d/%d/%d", shape, s, f)] = forge.Build(forge.Spec{Format: forge.Formats[f], Chain: ch.X509(), Key: ch.Leaf().Key, Payload: forge.PayloadFor(w.desc), Scheme: []string{forge.SchemeX509, forge.SchemeSA}[s], SigningTime: time.Now().Add(-time.Hour)})
@@ -812,6 +933,56 @@ func main() {
 		}
 		r.Extra["option_cells"] = len(levelNames)*nPlugins - 1
 		r.Extra["option_cases"] = len(cases) - n0
+	}
+	// ---- look-alike certificates (collisions by construction) and cancelled contexts ----
+	{
+		maxS := 1
+		if r.Thorough() {
+			maxS = 2
+		}
+		n0 := len(cases)
+		for _, shape := range []int{0, 2, 3} {
+			kinds := []int{kRoot, kInter, kTwinRoot, kTwinInter, kReissuedRoot}
+			if shape == 2 {
+				kinds = []int{kRoot, kInter, kTwinRoot, kTwinInter}
+			} else if shape == 3 {
+				kinds = []int{kRoot, kInter, kReissuedRoot}
+			}
+			for _, pl := range placementsOf(kinds, maxS) {
+				if shape == 0 && !hasLookalike(pl) {
+					continue // the main family
+				}
+				w.configDir(pl, shape, 0)
+				for _, l := range lists {
+					if len(l) > 2 {
+						continue
+					}
+					for s := 0; s < 2; s++ {
+						for f := 0; f < 2; f++ {
+							cases = append(cases, caseT{Placement: pl, List: l, Scheme: s, Format: f, Shape: shape})
+						}
+					}
+				}
+			}
+		}
+		r.Extra["look_alike_cases"] = len(cases) - n0
+		n0 = len(cases)
+		for _, pl := range placementsOf([]int{kRoot, kInter, kUnrelated, kEmptyDir}, maxS) {
+			w.configDir(pl, 0, 0)
+			for _, l := range lists {
+				if len(l) > 2 {
+					continue
+				}
+				for s := 0; s < 2; s++ {
+					for f := 0; f < 2; f++ {
+						for cn := 1; cn < len(cancelNames); cn++ {
+							cases = append(cases, caseT{Placement: pl, List: l, Scheme: s, Format: f, Cancel: cn})
+						}
+					}
+				}
+			}
+		}
+		r.Extra["cancelled_context_cases"] = len(cases) - n0
 	}
 	r.Extra["cases"] = len(cases)
 	r.Parallel(len(cases), func(i int) {
